@@ -98,6 +98,8 @@ pub struct Profile {
     pub legal_bias_permille: u64,
     /// per-mille probability that the run starts from D+1..D+2 vertices (deep flip walks on tiny complexes)
     pub small_start_permille: u64,
+    /// construct through `DelaunayTriangulationBuilder::toroidal` / `toroidal_periodic` (C16)
+    pub toroidal: bool,
 }
 
 impl Default for Profile {
@@ -117,6 +119,7 @@ impl Default for Profile {
             nonfinite_permille: 0,
             legal_bias_permille: 0,
             small_start_permille: 0,
+            toroidal: false,
             tick_limit: 0,
         }
     }
@@ -282,7 +285,12 @@ pub fn run<K: SimKernel<D>, const D: usize>(
         prologue.push(Op::Empty { obj: 0, tg: tg.to_string() });
     } else {
         let mut r = Rng::sub(rs, "init", 0);
-        let (ctor, opts) = if profile.random_ctor {
+        let (ctor, opts) = if profile.toroidal {
+            let per = crate::generate::torus_periods(rs, D);
+            let hex: Vec<String> = per.iter().map(|p| format!("{:x}", p.to_bits())).collect();
+            let mode = if D == 2 && r.chance(3, 10) { "toroidal_periodic" } else { "toroidal" };
+            (format!("{mode}:{}", hex.join(",")), if r.chance(1, 2) { gener.random_opts(&mut r) } else { crate::ops::Opts::default() })
+        } else if profile.random_ctor {
             ((*r.pick(&["options_stats", "options_stats", "options", "guarantee", "kernel", "builder"])).to_string(), gener.random_opts(&mut r))
         } else {
             ("guarantee".to_string(), crate::ops::Opts::default())
